@@ -326,3 +326,36 @@ Definition avalanches_res_tab (zf : N -> float -> float -> float -> float)
   avalanches_res 0%float fpos fgt f_pcmp zf slen (fun _ ids => D ids) (fun c => Ok c) (fun id => Ok (P id))
                  (isort (lessW fgt)) (isort (lessP fgt)) ws pads.
 Definition contiguous_ranges_res_n (ws : list (option N)) : res (list (N * N)) := contiguous_ranges_res ws.
+
+(* ------------------------------------------------------------------------------------------ *)
+(* lib.rs:394-406  vertex(): the wrapper around the stages of C18 (SpacePoint::try_from), C15
+   (cluster_spacepoints) and C14 (Track::try_from(Cluster), find_vertices).  The stages are parameters here;
+   AvalTotal_proofs.vertex_total_partial_lemma instantiates them with the models of Recon/Cluster.v and Recon/Fit.v. *)
+
+(* `.into_iter().filter_map(|x| f(x).ok()).collect()`: an Err is dropped, a panic inside f unwinds *)
+Fixpoint ok_filter {X Y} (f : X -> res Y) (l : list X) : res (list Y) :=
+  match l with
+  | [] => Ok []
+  | x :: t =>
+      match f x with
+      | Ok y => do ys <- ok_filter f t; Ok (y :: ys)
+      | Err _ => ok_filter f t
+      | Panic => Panic
+      end
+  end.
+
+Section VertexRes.
+  Context {A SP TR V : Type}.
+  Variable sp_of : A -> res SP.                                    (* lib.rs:116-128 SpacePoint::try_from(Avalanche) *)
+  Variable cluster : list SP -> res (list (list SP) * list SP).    (* reconstruction.rs cluster_spacepoints: (clusters, remainder) *)
+  Variable fit : list SP -> res TR.                                (* track_fitting.rs Track::try_from(Cluster) *)
+  Variable find : list TR -> res (option V * list TR).             (* vertex_fitting.rs find_vertices: (primary, remainder) *)
+
+  Definition vertex_res (avalanches : res (list A)) : res (option V) :=
+    do avs <- avalanches;                                          (* :396 self.avalanches() *)
+    do points <- ok_filter sp_of avs;                              (* :397-399 *)
+    do '(clusters, _) <- cluster points;                           (* :400-401 *)
+    do tracks <- ok_filter fit clusters;                           (* :402-404 *)
+    do '(primary, _) <- find tracks;                               (* :405 *)
+    Ok primary.                                                    (* :405 .primary.map(|info| info.position) *)
+End VertexRes.
